@@ -399,6 +399,9 @@ def _drive_hypothesis(sub, res, tier, shard, nshards, vseed, tbudget, t0, suppre
     total = int(sub.budget.get(tier, 100))
     strat = sub.strategy(tier)
     shrink_cap = 40.0 if tier == "quick" else 240.0
+    if os.environ.get("VERIF_SHRINK_CAP"):
+        # sensitivity sweeps (tools/muttest.py --fast) only ask whether a violation is reported at all
+        shrink_cap = float(os.environ["VERIF_SHRINK_CAP"])
     passes = 0
     while res["evaluations"] < total and len(res["failures"]) < sub.max_buckets:
         passes += 1
